@@ -464,6 +464,9 @@ theorem regInv_handle (s : Sys) (self : Cid) (e : Env) (hi : RegInv none s) : Re
   split
   · split
     · exact hi
+    · exact regInv_sameCore ((sameCore_upd s self (fun x => if x.state = .killing then { x with restarting := none } else x)
+        (fun _ => by split <;> exact ⟨rfl, rfl, rfl⟩)).trans
+        (sameCore_deadLetter _ _)) hi
     · exact regInv_sameCore (sameCore_deadLetter _ _) hi
   · split
     · exact regInv_execRecover none _ _ _ _ _ hi
@@ -472,13 +475,15 @@ theorem regInv_handle (s : Sys) (self : Cid) (e : Env) (hi : RegInv none s) : Re
       · split
         · exact regInv_doKill _ _ _ _ _
             (regInv_updAlive s self (fun x => { x with state := .killing }) (fun _ => rfl) (fun _ => by simp) hi)
-        · exact hi
+        · exact regInv_sameCore (sameCore_upd s self _ (fun _ => ⟨rfl, rfl, rfl⟩)) hi
     · exact regInv_onKilled _ _ _ _ _ hi
     · exact regInv_sameCore (sameCore_onSupervise _ _ _) hi
     · exact regInv_sameCore (sameCore_upd s self _ (fun _ => ⟨rfl, rfl, rfl⟩)) hi
     · exact regInv_sameCore (sameCore_upd s self _ (fun _ => ⟨rfl, rfl, rfl⟩)) hi
-    · exact regInv_doKill _ _ _ _ _
-        (regInv_updAlive s self (fun x => { x with state := .killing, restarting := some _ }) (fun _ => rfl) (fun _ => by simp) hi)
+    · split
+      · exact regInv_doKill _ _ _ _ _
+          (regInv_updAlive s self (fun x => { x with state := .killing, restarting := some _ }) (fun _ => rfl) (fun _ => by simp) hi)
+      · exact hi
     · repeat' split
       all_goals first
         | exact hi
